@@ -98,14 +98,31 @@ Definition poison_one (w : world) (ti : nat) (explicit : option did) (d : dat) (
 (* sort key: the invocations of a run, in order (the recursion of sort_list / sort_deep:
    list.sort calls the key once per element, in list order, before it reorders anything;
    then the sorted children are visited in their new order) *)
-Fixpoint calls_deep (fuel : nat) (k : keyt) (reverse : bool) (t : rt) {struct fuel} : list nat :=
+(* the invocations on one level: list order, up to and including the first raising key *)
+Fixpoint level_calls (k : keyt) (l : list rt) : list nat :=
+  match l with
+  | [] => []
+  | c :: l' => rid c :: (match key_of k (rid c) with Some _ => level_calls k l' | None => [] end)
+  end.
+
+Fixpoint calls_deep (fuel : nat) (k : keyt) (reverse : bool) (t : rt) (failed : bool) {struct fuel} : list nat * bool :=
   match fuel with
-  | 0 => []
+  | 0 => ([], true)
   | S fuel' =>
-      match rch t with
-      | [] => []
-      | ch => map rid ch ++ (if keys_ok k ch then flat_map (calls_deep fuel' k reverse) (py_sort k reverse ch) else [])
-      end
+      if failed then ([], true)
+      else match rch t with
+           | [] => ([], false)
+           | ch =>
+               if keys_ok k ch then
+                 let r := (fix go (l : list rt) (failed : bool) : list nat * bool :=
+                             match l with
+                             | [] => ([], failed)
+                             | c :: l' => let (a, f1) := calls_deep fuel' k reverse c failed in
+                                          let (b0, f2) := go l' f1 in (a ++ b0, f2)
+                             end) (py_sort k reverse ch) false in
+                 (level_calls k ch ++ fst r, snd r)
+               else (level_calls k ch, true)
+           end
   end.
 
 Definition sort_calls (k : keyt) (reverse deep : bool) (ch : list rt) : list nat :=
@@ -113,8 +130,15 @@ Definition sort_calls (k : keyt) (reverse deep : bool) (ch : list rt) : list nat
   | [] => []
   | _ =>
       if Nat.eqb (length ch) 1 && negb deep then []
-      else map rid ch ++
-           (if deep && keys_ok k ch then flat_map (calls_deep (S (size_f ch)) k reverse) (py_sort k reverse ch) else [])
+      else if keys_ok k ch && deep then
+             level_calls k ch ++
+             fst ((fix go (l : list rt) (failed : bool) : list nat * bool :=
+                     match l with
+                     | [] => ([], failed)
+                     | c :: l' => let (a, f1) := calls_deep (S (size_f ch)) k reverse c failed in
+                                  let (b0, f2) := go l' f1 in (a ++ b0, f2)
+                     end) (py_sort k reverse ch) false)
+           else level_calls k ch
   end.
 
 Definition poison_key (calls : list nat) (i : nat) (k : keyt) : keyt :=
